@@ -45,13 +45,14 @@ Property clause → theorem (all kernel-checked, quantified over ALL totals / ep
       AvailableRewards ≥ 0 PROVIDED every epoch respects the literal cap — the code does not enforce it, see the three
       counterexamples), `ext_epochs_le_duration`, `ext_one_epoch_per_visit`, `ext_not_due_twice`, `ext_share_visit_valid`,
       `ext_accepted_programme_funded`
-* swap-fee gauges (`sfTrigger`): `sf_epoch_pays_le_collected`; `sf_gauge_leak_counterexample` (D44: a failed fee transfer after
-  a paid distribution leaves the record unchanged, the deposit is paid again every epoch)
+* swap-fee gauges (`sfTrigger`): `sf_epoch_pays_le_collected` (the record always moves by what was paid and what arrived);
+  `sf_gauge_leak_before_fix_counterexample` (D44, repaired by repository commit b0fa4d4: the step as it WAS left the record
+  unchanged after a failed fee transfer and paid the deposit again every epoch)
 * "the rewards custody account always holds at least the undistributed remainder of all active gauges and external
    reward programs"
     → `custody_ge_remaining` (ledger invariant over create-gauge / pool creation / create-programme / donations / begin
       blockers made of gauge triggers, swap-fee gauge triggers, programme payouts, deactivations, with panicking blocks rolled
-      back; hypothesis `noLeak`: no swap-fee trigger of the history is the D44 situation),
+      back; unconditional since the repair of D44),
       `custody_ge_active_remaining` (sum over ACTIVE gauges and programmes, under the explicit hypothesis that no
       programme's `AvailableRewards` is negative — the code has no such guard, the monitor `custody` tests it),
       `farmers_receive_calculated` (under the invariant no reward send can fail for lack of funds);
@@ -437,63 +438,71 @@ example : weight { master := ⟨500, 1000000, 1000000⟩, children := [⟨300, 1
 
 /-- **Custody**: after ANY sequence of operations from the empty ledger — gauge creations (accepted or rejected), pool
 creations (swap-fee gauges), external-programme creations, donations, begin blockers consisting of any gauge triggers /
-swap-fee gauge triggers / programme payouts / deactivations in any order with any distribution data (a panicking block is
-rolled back) — in which no swap-fee trigger is a leak (`noLeak`: a distribution that paid followed by a FAILED transfer,
-see `sf_gauge_leak_counterexample`), the rewards module account holds at least the sum of all gauges' undistributed
-remainders plus all swap-fee gauges' deposits plus all programmes' available rewards, and every gauge's remainder is
-non-negative. -/
-theorem custody_ge_remaining (ops : List Op) (l : Ledger) (hl : l = run Ledger.empty ops) (hk : noLeak Ledger.empty ops = true) :
+swap-fee gauge triggers (with any distribution data and any outcome of the fee transfer) / programme payouts /
+deactivations in any order (a panicking block is rolled back) — the rewards module account holds at least the sum of all
+gauges' undistributed remainders plus all swap-fee gauges' deposits plus all programmes' available rewards (signed: a
+programme that over-paid counts negatively, D20 / D42 / D43), and every gauge's remainder is non-negative. -/
+theorem custody_ge_remaining (ops : List Op) (l : Ledger) (hl : l = run Ledger.empty ops) :
     remGauges l.gauges + remExts l.exts + remSfs l.sfs ≤ l.bal ∧
     ∀ g ∈ l.gauges, 0 ≤ gaugeRem g ∧ 0 ≤ g.distributed ∧ g.triggered ≤ g.total := by
   subst hl
-  obtain ⟨hg, hb⟩ := run_inv Ledger.empty ops empty_inv hk
+  obtain ⟨hg, hb⟩ := run_inv Ledger.empty ops empty_inv
   refine ⟨hb, fun g hgm => ?_⟩
   have h := hg g hgm
   have := GInv_le_deposit g h
   exact ⟨by simp only [gaugeRem]; omega, h.1, h.2.1⟩
 
 /-- the clause as worded (ACTIVE gauges and programmes).  The hypothesis that no programme's `AvailableRewards`
-is negative is NOT enforced by the code (`AvailableRewards -= tracker` without comparison); the monitor tests it. -/
+is negative is NOT enforced by the code (`AvailableRewards -= tracker` without comparison; D20, D42, D43); the monitor
+tests it. -/
 theorem custody_ge_active_remaining (ops : List Op) (l : Ledger) (hl : l = run Ledger.empty ops)
-    (hk : noLeak Ledger.empty ops = true) (hx : ∀ x ∈ l.exts, 0 ≤ x.avail) :
+    (hx : ∀ x ∈ l.exts, 0 ≤ x.avail) :
     remActiveGauges l.gauges + remActiveExts l.exts + remSfs l.sfs ≤ l.bal := by
   subst hl
-  obtain ⟨hg, hb⟩ := run_inv Ledger.empty ops empty_inv hk
+  obtain ⟨hg, hb⟩ := run_inv Ledger.empty ops empty_inv
   have h1 := remActiveGauges_le _ hg
   have h2 := remActiveExts_le _ hx
   omega
 
 /-- **One swap-fee epoch**: what is handed out is at most what the gauge collected at the previous epoch (its
-`DepositAmount`), every coin is non-negative, nothing is handed out from an empty gauge; and when the epoch is counted the
-record moves by exactly what was paid and what arrived: `deposit' = deposit − paid + received`. -/
+`DepositAmount`), every coin is non-negative, nothing is handed out from an empty gauge; and the record ALWAYS moves by
+exactly what was paid and what arrived — `deposit' = deposit − paid + received`, `distributed' = distributed + paid` —,
+also when the fee transfer fails (then nothing arrives and the epoch is not counted). -/
 theorem sf_epoch_pays_le_collected (g g' : SfGauge) (d : DistData) (x : Xfer) (sends : List Int) (recv : Int)
     (h : sfTrigger g d x = .ok (g', sends, recv)) :
     (∀ r ∈ sends, 0 ≤ r) ∧ 0 ≤ recv ∧ (0 < g.deposit → sumL sends ≤ g.deposit) ∧ (g.deposit ≤ 0 → sends = []) ∧
-    (g'.triggered = g.triggered + 1 →
-      g'.deposit = g.deposit - sumL sends + recv ∧ g'.distributed = g.distributed + sumL sends) := by
-  obtain ⟨h1, h2, h3, h4, hc⟩ := sfTrigger_cases g g' d x sends recv h
-  refine ⟨h1, h2, h3, h4, ?_⟩
-  intro ht
-  rcases hc with ⟨rfl, _, _⟩ | ⟨amt, _, rfl, hd, hdi, _⟩
-  · omega
-  · exact ⟨hd, hdi⟩
+    g'.deposit = g.deposit - sumL sends + recv ∧ g'.distributed = g.distributed + sumL sends ∧
+    (x = .err → recv = 0 ∧ g'.triggered = g.triggered) := by
+  obtain ⟨h1, h2, h3, h4, h5, h6, hc⟩ := sfTrigger_cases g g' d x sends recv h
+  refine ⟨h1, h2, h3, h4, h5, h6, ?_⟩
+  intro hx
+  rcases hc with ⟨rfl, hr, _⟩ | ⟨_, hr, ht⟩ | ⟨amt, hxa, _, _⟩
+  · exact ⟨hr, rfl⟩
+  · exact ⟨hr, ht⟩
+  · rw [hx] at hxa; cases hxa
 
 example : sfTrigger { deposit := 36000, distributed := 0, triggered := 1 } (.ok [35999]) (.ok 500)
     = .ok ({ deposit := 501, distributed := 35999, triggered := 2 }, [35999], 500) := by decide
+-- the fee transfer fails after the distribution: the payment is booked, the epoch is not counted
+example : sfTrigger { deposit := 36000, distributed := 0, triggered := 1 } (.ok [36000]) .err
+    = .ok ({ deposit := 0, distributed := 36000, triggered := 1 }, [36000], 0) := by decide
 
-/-- **A swap-fee gauge can pay the same deposit again and again** (gauge.go:266-287): the distribution is paid, then
-`TransferFundsForSwapFeeDistribution` fails (two pools on the pair and the oracle price of one side missing) and the loop
-`continue`s before `SetGauge` — the record keeps `DepositAmount = 36000`.  Three epochs later 108 000 have left the module
-account for 36 000 collected, and an ordinary gauge's 100 000 in the same account are backed by 28 000. -/
-theorem sf_gauge_leak_counterexample :
-    sfTrigger { deposit := 36000, distributed := 0, triggered := 1 } (.ok [36000]) .err
-      = .ok ({ deposit := 36000, distributed := 0, triggered := 1 }, [36000], 0) ∧
+/-- **Finding D44 (repaired by repository commit b0fa4d4), kept as a theorem about the step AS IT WAS**: before the fix a
+failed fee transfer `continue`d before `SetGauge` (`sfTriggerBeforeFix`): the distribution was paid and the record kept
+`DepositAmount = 36000`; repeated over three epochs 108 000 leave the module account for 36 000 collected, and an ordinary
+gauge's 100 000 held in the same account is backed by 28 000 — the custody inequality of `custody_ge_remaining` fails for
+that step function, while the repaired step books the payment once and pays nothing afterwards. -/
+theorem sf_gauge_leak_before_fix_counterexample :
+    let g : SfGauge := { deposit := 36000, distributed := 0, triggered := 1 }
+    sfTriggerBeforeFix g (.ok [36000]) .err = .ok (g, [36000], 0) ∧
+    (100000 : Int) + g.deposit > 136000 - 3 * 36000 ∧
+    sfTrigger g (.ok [36000]) .err = .ok ({ deposit := 0, distributed := 36000, triggered := 1 }, [36000], 0) ∧
     run Ledger.empty
       [.createGauge 100000 10 1000 0 86400000000000 43200000000000 true 100000, .createSf,
        .block [.sfTrigger 0 (.ok []) (.ok 36000)],
        .block [.sfTrigger 0 (.ok [36000]) .err], .block [.sfTrigger 0 (.ok [36000]) .err], .block [.sfTrigger 0 (.ok [36000]) .err]]
-    = { bal := 28000, gauges := [newGauge 100000 10 1000], exts := [], sfs := [{ deposit := 36000, distributed := 0, triggered := 1 }] } := by
-  constructor <;> decide
+    = { bal := 100000, gauges := [newGauge 100000 10 1000], exts := [], sfs := [{ deposit := 0, distributed := 36000, triggered := 1 }] } := by
+  refine ⟨by decide, by decide, by decide, by decide⟩
 
 /-- **The external programmes have no `paid ≤ available` guard, and their share arithmetic can exceed it**
 (iter.go:60-90): 9·10¹⁸ base units available on the last day, six lockers with equal balances ⇒ each share is
